@@ -247,9 +247,6 @@ func c02fTailFilter(maxUpd int, deep bool, fresh int) {
 	if ps > 0 {
 		peer = []LogUpdate{{LogIndex: vU64("peerLogIndex"), UpdateMsg: c02Update(c02KindFulfill+ps-1, 0)}}
 	}
-	if fresh == 1 {
-		vReach("filter-fresh-case")
-	}
 	pkg := NewFwdPkg(ch.ShortChannelID, r+1, nil, nil)
 
 	err = cdb.AdvanceCommitChainTail(ch, pkg, peer, 0, 1)
